@@ -16,7 +16,7 @@ import traceback
 
 import numpy as np
 
-from common import REPO, VERIF, coq_bool, coq_list, coq_z, sh
+from common import REPO, VERIF, coq_bool, coq_list, coq_z, sh, source_pins
 
 TRUSTED_BASE = [
     "Coq 8.16.1 kernel + coqc (vm_compute only in the correspondence shards and in the concrete _refuted / Example witnesses; no native_compute)",
@@ -43,6 +43,35 @@ RULE = ("one case = one generated SMILES x one build path (init_smiles forced, i
         "9-coordinate centres with implicit/bracket/explicit hydrogens (builder failure), quadruple '$' bonds, fused/aromatic rings, biphenyl linkers, Kekule rings, "
         "charged, radicals incl. odd poly-radical, tetrahedral and double-bond stereo incl. marks on non-stereocentres and three-coordinate S/P lone-pair centres in both hands, atom classes, explicit [H]) plus random template x substituent "
         "combinations; a case is non-trivial when the molecule has >1 atom; distinct by (SMILES, path, charge, mult)")
+
+# Functions the hand-written parts of coq/C02/Model.v (and the observation/decision code of this harness) were
+# written from and that tr/translate_c02.py does NOT already regenerate or compare statement by statement.
+# (Translated: init_organic_smiles, init_smiles, calc_multiplicity, Molecule._init_smiles, the pi rule.  Compared by
+#  the translator: check_bonds, make_graph's bond_list branch, Builder._explicit_all_hydrogens / set_atoms_bonds
+#  prologue / canonical_atoms(_at_origin) / max_ring_n / build's first statement, the setters Species.atoms / charge /
+#  mult and AtomCollection.atoms, Species.graph, SMILESAtom.is_aromatic / has_stereochem, Parser.charge / mult, and the
+#  tables aromatic_symbols, bond_order_symbols, metals.)
+PINS = [
+    ("autode/species/molecule.py", "Molecule.__init__"),                 # Model.init_state; passes charge on to _init_smiles
+    ("autode/species/species.py", "Species.__init__"),                   # charge / mult / no atoms, no graph
+    ("autode/species/species.py", "Species.charge"),
+    ("autode/species/species.py", "Species.mult"),
+    ("autode/species/species.py", "Species.has_reasonable_coordinates"),  # ResimIfUnreasonable: touches the lazy graph
+    ("autode/conformers/conformers.py", "atoms_from_rdkit_mol"),         # AtRdkit: labels in mol-block order, no atom_class
+    ("autode/conformers/conf_gen.py", "get_simanl_atoms"),               # AtSimanl: moved copies of the same atoms, reads species.graph
+    ("autode/smiles/base.py", "SMILESAtom.__init__"),                    # satom fields; new H atoms have no class / mark
+    ("autode/smiles/base.py", "SMILESBond.__init__"),                    # order from the bond symbol
+    ("autode/smiles/base.py", "SMILESBond.__getitem__"),                 # idx_i, idx_j = bond
+    ("autode/smiles/base.py", "SMILESBond.symbol"),
+    ("autode/smiles/base.py", "SMILESBond.atom_indexes"),
+    ("autode/smiles/base.py", "SMILESBonds._bond_exists"),               # wf_mol: no duplicate / self bonds
+    ("autode/smiles/base.py", "SMILESBonds.append"),
+    ("autode/smiles/base.py", "SMILESBonds.insert"),
+    ("autode/atoms.py", "AtomCollection.n_atoms"),                       # builder.n_atoms (GNAtomsEq), species.n_atoms == 0
+    ("autode/atoms.py", "AtomCollection.atoms"),
+    ("autode/atoms.py", "Atom.__init__"),                                # label, atom_class
+    ("autode/atoms.py", "Atom.atomic_number"),                           # Parser.mult electron count
+]
 
 SLICE = ["C02/Model.v", "C02/Lemmas.v", "C02/Props.v", "C02/Corr.v", "gen/C02_Gen.v"]
 PRE = ("From Coq Require Import ZArith List Bool Arith.\nFrom AV.lib Require Import QcInst.\n"
@@ -167,6 +196,15 @@ def elements_table():
     from rdkit import Chem
     pt = Chem.GetPeriodicTable()
     return {pt.GetElementSymbol(z): z for z in range(1, 119)}
+
+
+def metals_table():
+    """the harness's own copy of the metal symbols (tr/translate_c02.py compares it with autode.atoms.metals)"""
+    import importlib.util
+    spec = importlib.util.spec_from_file_location("translate_c02", os.path.join(VERIF, "tr", "translate_c02.py"))
+    mod = importlib.util.module_from_spec(spec)
+    spec.loader.exec_module(mod)
+    return list(mod.METALS)
 
 
 def bracket_is_metal(smiles, metals, sym2z):
@@ -510,7 +548,7 @@ def collect(job):
     logging.disable(logging.CRITICAL)
     from rdkit import RDLogger
     RDLogger.DisableLog("rdApp.*")
-    from autode.atoms import metals
+    metals = metals_table()
     sym2z = elements_table()
     ref = reference(smiles)
     if ref is None:
@@ -635,6 +673,10 @@ def run(ctx):
     logging.disable(logging.CRITICAL)
     from rdkit import RDLogger
     RDLogger.DisableLog("rdApp.*")
+    pins_changed = source_pins(ctx.pid, PINS)
+    ctx.cov["source_pins"] = {"pinned": len(PINS), "changed": pins_changed}
+    if pins_changed:
+        ctx.log("source pins changed:", pins_changed)
     # 1. regenerate the model from the repository
     rc, out = sh(["python3", f"{VERIF}/tr/translate_c02.py"], timeout=120)
     ctx.log("translator:", out.strip()[:400])
@@ -706,6 +748,9 @@ def run(ctx):
                            "coq_terms": [terms[i][:3000] for i in corr_bad[:2]], "coq_error": corr_err}, found_input=False)
         else:
             ctx.log(f"correspondence disagreements ({[descr[i] for i in corr_bad[:4]]}) accompany the implementation-level findings above")
+    if pins_changed and not ctx.violations:
+        ctx.violation("hand model no longer pinned to the source: " + ", ".join(pins_changed),
+                      {"kind": "source-pin", "changed": pins_changed}, found_input=False)
 
 
 def replay(ctx, obj):
@@ -713,7 +758,7 @@ def replay(ctx, obj):
     os.chdir(ctx.work)
     import logging
     logging.disable(logging.CRITICAL)
-    from autode.atoms import metals
+    metals = metals_table()
     sym2z = elements_table()
     rep = obj.get("replay", {})
     smiles = rep.get("smiles")
